@@ -8,7 +8,7 @@ whose XER body is produced through a local buffer or a per-item callback loop) a
 
   skeletons routine                      buffer / flush rule                          swept here
   INTEGER__dump  (wide)                  scratch[32], flushed every 10 octets         content 1..45 octets, both signs, padded
-  NativeInteger_encode_xer               scratch[32], one snprintf                    1..20 digits, both signs, unsigned 2^64-1
+  NativeInteger_encode_xer               scratch[32], one snprintf                    1..20 digits, both signs, unsigned specifics
   asn__format_to_callback                scratch[64], malloc above 63 characters      ENUMERATED / named-number names 1..130 chars
   REAL__dump                             local_buf[64], malloc above 63 characters    10^k, k = -20..60, 100, 300, specials
   OBJECT_IDENTIFIER__dump_body           scratch[32], one invocation per arc          2..130 arcs, arcs of 1..10 digits, > 32 bits
@@ -56,7 +56,7 @@ def ident(n, salt):
 
 ENUM_NAMES = [ident(n, i) for i, n in enumerate(ENUM_NAME_LENS)]
 MEMBER_NAMES = [ident(n, 50 + i) for i, n in enumerate(MEMBER_NAME_LENS)]
-LONG_TYPE = "T" + ident(199, 90)[1:]
+LONG_TYPE = "T" + ident(199, 90)[1:].replace("-", "x")        # (hyphen-free: harness/pdu_table.c uses it as a C identifier)
 
 
 def prim_text(name):
@@ -66,6 +66,7 @@ def prim_text(name):
     return """%s DEFINITIONS AUTOMATIC TAGS ::= BEGIN
   WI ::= INTEGER
   WJ ::= INTEGER (0..18446744073709551615)
+  WP ::= INTEGER (0..4294967295)
   WN ::= INTEGER { %s }
   WE ::= ENUMERATED { %s }
   WR ::= REAL
@@ -94,7 +95,7 @@ END
 """ % (name, nn, en, lm, LONG_TYPE)
 
 
-PRIM_TYPES = ["WI", "WJ", "WN", "WE", "WR", "WO", "WL", "WB", "WU", "WA", "WM", "WV", "WG", "WT", "WQ", "WF", "WH", "WK", LONG_TYPE, "WX", "WC", "WD"]
+PRIM_TYPES = ["WI", "WJ", "WP", "WN", "WE", "WR", "WO", "WL", "WB", "WU", "WA", "WM", "WV", "WG", "WT", "WQ", "WF", "WH", "WK", LONG_TYPE, "WX", "WC", "WD"]
 
 
 def prim_module(name):
@@ -275,6 +276,13 @@ def prim_values(flag, tier, rng):
     if wide:
         add("WJ", U(2), c_int(2 ** 64), "uint")        # beyond the constraint, beyond uintmax_t: the hex dump
         add("WJ", U(2), int_of_len(21, False), "uint")
+    # unsigned specifics (native: unsigned long; wide: INTEGER_t read through asn_INTEGER2umax, "%ju")
+    for v in [0, 1, 9, 10, 127, 128, 255, 65535, 2 ** 31 - 1, 2 ** 31, 10 ** 9, 2 ** 32 - 1]:
+        add("WP", U(2), c_int(v), "uint32")
+    if wide:
+        for c in (c_int(2 ** 32), c_int(2 ** 63), c_int(2 ** 64 - 1), c_int(10 ** 19), b"\x00" * 5 + c_int(2 ** 64 - 1), c_int(2 ** 64), int_of_len(9, True),
+                  int_of_len(11, False), int_of_len(21, False), int_of_len(31, True)):
+            add("WP", U(2), c, "uint32-big")          # (beyond uintmax_t the BER decoder of this type refuses the value)
     for v in list(range(0, 14)) + [40, -1, 2 ** 40]:
         add("WN", U(2), c_int(v), "named")
     if wide:
@@ -397,3 +405,7 @@ def int_dump_strip(content):
 
 def int_dump_text(content):
     return ":".join("%02X" % x for x in int_dump_strip(content)).encode()
+
+
+# types whose code is the same under both flag sets (quick tier: each value under ONE of them, rotating with the seed)
+FLAG_INDEPENDENT = {"WO", "WL", "WB", "WU", "WA", "WM", "WV", "WG", "WT", "WK", "WD"}
